@@ -181,11 +181,13 @@ CLAIMED["C08"] = dict(
          "was observed by the oracle. " + SRV_NOTE, design="5/C08")
 CLAIMED["C09"] = dict(
     engine="lean+strace+fault-enumeration",
-    technique="Lean 4 theorem by kernel evaluation over every crash point of the extracted file-operation sequence (boundaries "
-              "and inside writes) + strace of the real save compared with that sequence + the real server restarted on every "
+    technique="Lean 4 theorems by kernel evaluation over every crash point of the extracted file-operation sequence (boundaries "
+              "and inside writes), from every start state a past crash can leave (any leftover temporary file), lifted by induction "
+              "to every history of completed and crashed saves + strace of the real save compared with that sequence + the real server restarted on every "
               "materialised crash directory",
-    text="C09 (every crash state restores a complete old-or-new version of both files, saving continues) is kernel-checked over "
-         "saveOps regenerated from user_pref.rs; the traced system calls of a real save must equal saveOps; each crash directory "
+    text="C09 (every crash state restores a complete old-or-new version of both files, saving continues), "
+         "C09_from_any_leftover and C09_history (the same for every history of saves and crashes, stale temporary files "
+         "included) are kernel-checked over saveOps regenerated from user_pref.rs; the traced system calls of a real save must equal saveOps; each crash directory "
          "is restored by the real binary.",
     note="Process death only (atomic rename, durable completed writes). File contents are abstract in the theorem "
          "(old/new/torn/empty); byte-level cuts are exercised on the real files. " + SRV_NOTE, design="5/C09")
